@@ -4,6 +4,9 @@ import KyupyVerif.Proofs.TransformStable
 import KyupyVerif.Proofs.TransformSem6
 import KyupyVerif.Proofs.Substitute4
 import KyupyVerif.Proofs.SubstituteRes
+import KyupyVerif.Proofs.SubstSem9
+import KyupyVerif.Proofs.SubstResolve
+import KyupyVerif.Proofs.SubstSem10
 /-! # C10 — copy, pickle, fork elimination and cell substitution preserve function
 
 Objects of the theorems: the hand-written models `KV.Transform` of `Circuit.copy`, `__getstate__/__setstate__`,
@@ -47,9 +50,45 @@ driver raises, or is passed over — patch 06, the current tree).
     cell of the same flip-flop/latch class as the cell, no further state element in the implementation);
     `substitute_wiring` — the pin-by-pin wiring lemma (host line at instance pin `k` is connected to what port `k` of the
     implementation was connected to, through `node_map`) and the frame (all other host nodes and line ends untouched);
-    `substitute_sem_partial` — every host line not driven by the cell keeps its equation literally.  The full semantic
-    statement `substitute_sem` is written out as a comment above `substitute_sem_partial`; NOT proved: that the copied
-    implementation computes the cell's function at the instance's output lines.
+    `substitute_sem_partial` — every host line not driven by the cell keeps its equation literally (all regular uses, no
+    side condition on the implementation).
+  - **`substitute_sem`** — the FULL semantic statement for `substitute` (vocabulary: Model/SubstSem.lean, Proofs/SubstSem1.lean),
+    for every well-formed host and implementation, every use in which nothing is removed (`keepsAllB`: designated cell
+    exists, no connected-but-ignored input pin, every unconnected output is driven by a node that stays; this contains
+    regular use, `regular_keepsAll`, and allows unconnected input pins), cell neither port nor fork, under the decidable
+    side conditions `implOKB` on the implementation (designated cell not a port, ports distinct, no port a
+    flip-flop/latch, a port that is driven and read inside is a fork).  Relational form, no acyclicity / evaluation order:
+    with `ImplMatches h c m sh anm vm v` = "`(anm, vm)` is a consistent labelling of the implementation whose ports carry
+    the values of the instance's lines in the host labelling `v`" (the line of an input port whose instance pin is
+    unconnected is ABSENT in the implementation, `cutIns m (deadLine …)` — kyupy's own reading of a missing pin, finding
+    D23 — and an unconnected multi-reader port carries `z`), (1) every labelling of the result that is consistent outside a
+    set `S` of host nodes is, on the host lines, consistent for the host outside `S ∪ {cell}` and comes with an
+    `ImplMatches` labelling of the implementation that agrees with it on the copied lines and nodes; (2) every such pair
+    glues to a labelling of the result consistent outside `S`; every copied node reads pin by pin what its original reads
+    (so the new state elements capture what the implementation's capture); the result is well-formed (`substitute_wf`),
+    `node_map` is injective, keeps kinds, host nodes / ports / line indices are untouched, the new lines are the copied
+    lines in order.  `consOff_consistent` ties `ConsOff … ∅` to `consistentB` of C01.
+    `substitute_designated_port_not_wf` — kernel-checked witness that the side condition "designated cell is not a port"
+    is needed: for a Verilog-style feed-through implementation the real `substitute` (and the model) return a circuit that
+    is not well-formed (a copied line loses its reader pin to the instance's input line; `copy()` of it changes the function)
+    — finding D32.
+    **`remove_dangling_sem`** — `remove_dangling_nodes` (model `removeDangling`, every circuit that is well-formed up to trailing
+    `None`s, any start nodes / `only` set): the result is well-formed up to trailing `None`s and embeds into the circuit
+    before (index maps `r`: kinds, names, ports, state elements, the lines read at every pin and the driver of every
+    surviving line are kept); consistent labellings restrict to consistent labellings, and extend back given values for the
+    removed lines that satisfy their equations.  **`substitute_sem_removing`** — `substitute` with an unconnected output whose
+    driver dangles (`noIgnoredB`: designated cell, no connected-but-ignored input pin; any outputs): the result is the
+    circuit `substituteCore` builds, for which `SubstSemStmt` (the conclusion of `substitute_sem`) holds, with dangling logic
+    removed as in `remove_dangling_sem`.  The result need not satisfy `NNet.wf`: `Line.remove()` leaves a trailing `None` in
+    the pin list of a cell (example `exImplFZ`; then `copy_dump_eq` does not apply to it).
+    NOT covered (modelled, covered by `substitute_ports` / `substitute_state_perm` and the oracle only): an input pin that
+    the implementation ignores (`Line.remove` renumbers lines inside the loop), an implementation without designated cell
+    (`node.remove()`), implementations violating `implOKB`.
+  - **`resolve_sem`** — `resolve_tlib_cells` (model `resolveCells`) when every substitution along the loop removes nothing
+    (`resolveOKB`, decidable by running the model): the result is well-formed, keeps ports, other nodes and node keys, and
+    its consistent labellings are exactly the labellings of the original circuit that are consistent outside the library
+    cells and give every library cell the relational meaning (`ImplMatches`) of its implementation — by induction over the
+    loop with `substitute_sem` for hole sets.
   - `resolve_ports` — `resolve_tlib_cells` (model `resolveCells`) keeps the port list, names and order, for every library.
 * **Correspondence** (harness/c10.py, differential, not proof): model dumps after copy / pickle round trip /
   `eliminate_1to1_forks` = dumps of the real objects on random circuits (both port styles, permuted node order,
@@ -61,9 +100,12 @@ driver raises, or is passed over — patch 06, the current tree).
   instance pins), comparing canonical dumps with names; where the real code raises the model answers `none`; the
   model's `regularB` = the harness's own reading of "regular use".  `resolve_tlib_cells` (driver command `resolve`) = the
   real method on random circuits instantiating cells of the five built-in libraries and of synthetic libraries.
-* **Oracle only** (harness/c10.py): the semantic statements for `substitute` (`substitute_sem`) and `resolve_tlib_cells`
-  (Boolean function at ports and state elements unchanged) are not proved; they are decided on the real code by
-  simulation before/after (random compositions, every library cell × pin subsets, synthetic libraries). -/
+* **Oracle only** (harness/c10.py): for the uses of `substitute` / `resolve_tlib_cells` outside the hypotheses of
+  `substitute_sem` / `resolve_sem` (something is removed, `implOKB` fails) the semantic statement (Boolean function at
+  ports and state elements unchanged) is decided on the real code by simulation before/after (random compositions, every
+  library cell × pin subsets, synthetic libraries); the same simulation also runs on the covered uses.  That the real
+  circuits satisfy `keepsAllB` / `implOKB` / `resolveOKB` is not evaluated by the harness yet (the predicates are
+  executable model functions). -/
 namespace KV.C10
 open KV KV.Transform
 variable {skip : Bool}
@@ -335,18 +377,204 @@ theorem substitute_wiring (h m h' : NNet) (c : Nat) (hw : h.wf = true) (hc : c <
     obtain ⟨k, hk⟩ := (mem_filterMap_id _ l).mp hmem
     exact hne (w.fwdIn c hc k l hk).2.1
 
-/- FULL STATEMENT (`substitute_sem`, not proved; decided by the oracle of harness/c10.py by simulation before/after):
-   let `F : (inputs : List α) → (outputs : List α)` be the function the implementation `m` computes at its output ports
-   from its input ports (its unique consistent labelling, C01) — more generally, with state elements, `F` also takes the
-   assignment of the implementation's flip-flops/latches and also returns their captured values.  For every host `h`,
-   cell `c`, `substitute h c m = some h'` and every labelling `v` of the lines of `h` that is consistent at every line not
-   driven by `c` and carries `F (values at the in-lines of c)` at the out-lines of `c` (the cell interpreted as the
-   implementation's function; unconnected input pins read `z`), there is a labelling `v'` of `h'` — `v` on the host's
-   surviving lines renamed by the deletions, the implementation's internal values on the copied lines — that is
-   consistent for `h'` (`consistentB`), with `capturesOf h' v'` = `capturesOf h v` at the ports and state elements of
-   `h` (position-wise along `s_nodes`, which `substitute_snames` shows to be unchanged in the documented case), the
-   designated state element capturing what `F` returns for it.
-   PROVED below: the part of this statement that concerns the host outside the cell. -/
+/-- regular use (`regularB`) is a use of `substitute` in which nothing is removed (`keepsAllB`, Model/SubstSem.lean: designated
+    cell, no connected-but-ignored input pin, every unconnected output driven by a node that stays) -/
+theorem regular_keepsAll (h m h' : NNet) (c : Nat) (hr : regularB h c m = true) (he : substitute h c m = some h') :
+    keepsAllB h c m = true := regularB_keepsAll h c m h' hr he
+
+/-- `substitute`, when nothing is removed, returns a well-formed circuit (side conditions as for `substitute_sem`) -/
+theorem substitute_wf (h m h' : NNet) (c : Nat) (hw : h.wf = true) (mw : m.wf = true) (hc : c < h.net.nodes.size)
+    (hio : h.net.io.contains c = false) (hcf : (h.net.node c).isFork = false)
+    (hr : keepsAllB h c m = true) (hok : implOKB m = true) (he : substitute h c m = some h') : h'.wf = true := by
+  obtain ⟨sh, dn, map, ct⟩ := substitute_cert h m h' c (WF.of_wf hw) (WF.of_wf mw) hc hio hcf hr hok he
+  exact wf_of_WF ct.wf'
+
+/-- **the semantic statement about `substitute`** (conclusion of `substitute_sem`; `h'` = the circuit after the implementation
+    has been copied in and connected, before dangling logic is removed — which is the result of `substitute` when nothing
+    is removed).  `substitute` preserves the function (full semantic statement; all uses in which nothing is removed, `keepsAllB`:
+    regular use — `regular_keepsAll` —, unconnected input pins, unconnected outputs whose driver stays).
+    Vocabulary (Model/SubstSem.lean, Proofs/SubstSem1.lean): `ConsOff nn S an v` — the labelling `v` of the lines of `nn`
+    under the node-indexed assignment `an` satisfies the equation (`lineEq`, Model/Net.lean) of every line whose driver
+    is not in the set `S` of "holes" (`S = ∅`: `v` is consistent, `consOff_consistent`); `ImplMatches h c m sh anm vm v` —
+    **the relational meaning of the cell**: `(anm, vm)` is a consistent labelling of the implementation `m` (the line
+    of an input port whose instance pin is unconnected being absent: `cutIns m (deadLine h c m sh)`), every port of `m` is
+    assigned the value of the host line at its instance pin (`portVal`: `z` for an unconnected pin and for output ports),
+    and output line `k` of `m` carries the value of the host line at output pin `k` of the instance.
+    For every well-formed host `h` and implementation `m`, cell `c` (no port, no fork), when nothing is removed
+    (`keepsAllB`) and under the side conditions `implOKB m` (designated cell no port, ports distinct, no port a flip-flop/latch, driven
+    ports that are read inside are forks), with `h' = substitute h c m`:
+    * `h'` is well-formed; `node_map` (`map`) is injective, sends the designated cell to `c` and everything else behind the
+      host's nodes, keeps the kinds (ports become forks); ports and all other nodes of the host are untouched; the lines
+      of `h'` are the host's lines followed by the copied lines (`copiedLines`);
+    * **(1)** every labelling `v'` of `h'` that is consistent outside `S` (any set of host nodes other than `c`) is, on the
+      host's lines, consistent for `h` outside `S ∪ {c}`, and there is a labelling `(anm, vm)` of the implementation with
+      `ImplMatches … anm vm v'` that agrees with `v'` on the copied lines and with `an'` on the copied nodes — the cell
+      behaves as its implementation; every copied node reads, pin by pin, what its original reads;
+    * **(2)** conversely every labelling `v` of `h` that is consistent outside `S ∪ {c}` together with any `(anm, vm)` with
+      `ImplMatches … anm vm v` glues to a labelling of `h'` that is consistent outside `S`, equals `v` on the host's lines
+      and `vm` on the copied lines.
+    No acyclicity, no uniqueness of labellings and no evaluation order is needed; multi-output cells, outputs read
+    inside the implementation, inputs with one or many readers, state elements inside the implementation and
+    unconnected input pins are covered uniformly. -/
+def SubstSemStmt {α : Type _} (h m h' : NNet) (c : Nat) (z : α) (neg : α → α) (prim : String → α → α → α → α → α) : Prop :=
+    ∃ (sh : Shape) (dn : Nat) (map : Array (Option Nat)),
+      implShape m = some sh ∧ sh.des = some dn ∧ h'.wf = true ∧
+      -- `node_map`
+      map.getD dn none = some c ∧
+      (∀ j x, map.getD j none = some x → j < m.net.nodes.size ∧ (x = c ∨ h.net.nodes.size ≤ x) ∧ x < h'.net.nodes.size ∧
+        (h'.net.node x).kind = if j ∈ m.net.io then "__fork__" else (m.net.node j).kind) ∧
+      (∀ j1 j2 x, map.getD j1 none = some x → map.getD j2 none = some x → j1 = j2) ∧
+      -- frame
+      h'.net.io = h.net.io ∧ (∀ d, d < h.net.nodes.size → d ≠ c → h'.net.node d = h.net.node d) ∧
+      h'.net.lines.size = h.net.lines.size + (copiedLines m map).length ∧
+      -- (1) result ⇒ host with the cell meaning its implementation
+      (∀ (S : Nat → Prop), (∀ s, S s → s < h.net.nodes.size ∧ s ≠ c) → ∀ an' v' : Nat → α,
+        ConsOff h' S z neg prim an' v' →
+        ConsOff h (fun d => S d ∨ d = c) z neg prim an' v' ∧
+        ∃ anm vm, ImplMatches h c m sh z neg prim anm vm v' ∧
+          (∀ j x, j ∉ m.net.io → map.getD j none = some x → anm j = an' x) ∧
+          (∀ t (ht : t < (copiedLines m map).length), vm (copiedLines m map)[t] = v' (h.net.lines.size + t)) ∧
+          (∀ j x k, map.getD j none = some x → ¬ (j ∈ m.net.io ∧ (m.net.node j).ins.length = 0) →
+            ((h'.net.node x).inPin k).map v' = (((cutIns m (deadLine h c m sh)).net.node j).inPin k).map vm)) ∧
+      -- (2) host with the cell meaning its implementation ⇒ result (gluing)
+      (∀ (S : Nat → Prop) (an v anm vm : Nat → α), ConsOff h (fun d => S d ∨ d = c) z neg prim an v →
+        ImplMatches h c m sh z neg prim anm vm v →
+        ∃ an' v', ConsOff h' S z neg prim an' v' ∧ (∀ l, l < h.net.lines.size → v' l = v l) ∧
+          (∀ d, d < h.net.nodes.size → d ≠ c → an' d = an d) ∧
+          (∀ j x, j ∉ m.net.io → map.getD j none = some x → an' x = anm j) ∧
+          (∀ t (ht : t < (copiedLines m map).length), v' (h.net.lines.size + t) = vm (copiedLines m map)[t]) ∧
+          (∀ j x k, map.getD j none = some x → ¬ (j ∈ m.net.io ∧ (m.net.node j).ins.length = 0) →
+            ((h'.net.node x).inPin k).map v' = (((cutIns m (deadLine h c m sh)).net.node j).inPin k).map vm))
+
+/-- `substitute`, when nothing is removed (`keepsAllB`), satisfies the semantic statement `SubstSemStmt` (see there) -/
+theorem substitute_sem {α : Type _} (h m h' : NNet) (c : Nat) (hw : h.wf = true) (mw : m.wf = true) (hc : c < h.net.nodes.size)
+    (hio : h.net.io.contains c = false) (hcf : (h.net.node c).isFork = false)
+    (hr : keepsAllB h c m = true) (hok : implOKB m = true) (he : substitute h c m = some h')
+    (z : α) (neg : α → α) (prim : String → α → α → α → α → α) : SubstSemStmt h m h' c z neg prim := by
+  obtain ⟨sh, dn, map, ct⟩ := substitute_cert h m h' c (WF.of_wf hw) (WF.of_wf mw) hc hio hcf hr hok he
+  exact ⟨sh, dn, map, ct.shape, ct.des, wf_of_WF ct.wf', ct.mapDn,
+    fun j x hm => ⟨ct.mapM j x hm, ct.mapGe j x hm, ct.mapLt j x hm, ct.kind' j x hm⟩, ct.mapInj, ct.io', ct.frameNode, ct.lsize,
+    fun S hS an' v' hc' => ct.forward z neg prim S hS an' v' hc',
+    fun S an v anm vm hH hM => ct.backward z neg prim S an v anm vm hH hM⟩
+
+/-- **`remove_dangling_nodes` preserves the function** (model `removeDangling`: any start nodes, any `only` set of valid node
+    references, any fuel that suffices), for every circuit that is well-formed up to trailing `None`s (`wfNoTrail`):
+    the result is again well-formed up to trailing `None`s (`Line.remove()` leaves a trailing `None` in the pin list of a
+    cell, so `NNet.wf` itself can fail), and there are index maps `r` (new index ↦ old index) under which every surviving
+    node keeps kind, name and — pin by pin — the lines it reads, every surviving line keeps its driver, the ports are
+    the same list, every flip-flop/latch survives; hence (restrict) every labelling of the circuit before that is consistent
+    outside `S`, restricted to the surviving lines and renamed, is consistent for the result, and (extend) a labelling of
+    the circuit before whose restriction is consistent for the result and which satisfies the equations of the removed
+    lines is consistent; (extension exists) every labelling of the result that is consistent outside `S` IS the restriction of
+    a labelling of the circuit before that is consistent outside `S` — a node has no connected output when it is removed,
+    so the lines removed with it carry what their (still complete) drivers compute; removed logic cannot contain a cycle,
+    no acyclicity assumption is needed. -/
+theorem remove_dangling_sem {α : Type _} (fuel : Nat) (nn nn' : NNet) (own : List Nat) (stack : List (Option Nat))
+    (hw : nn.wfNoTrail = true) (ho : own.all (fun x => decide (x < nn.net.nodes.size)) = true)
+    (he : removeDangling fuel nn own stack = some nn') (z : α) (neg : α → α) (prim : String → α → α → α → α → α) :
+    nn'.wfNoTrail = true ∧ ∃ r : Ren,
+      (∀ j', j' < nn'.net.nodes.size → r.node j' < nn.net.nodes.size ∧ (nn'.net.node j').kind = (nn.net.node (r.node j')).kind ∧
+        nn'.names.getD j' "" = nn.names.getD (r.node j') "" ∧
+        ∀ k, ((nn'.net.node j').inPin k).map r.line = (nn.net.node (r.node j')).inPin k) ∧
+      (∀ j1 j2, j1 < nn'.net.nodes.size → j2 < nn'.net.nodes.size → r.node j1 = r.node j2 → j1 = j2) ∧
+      nn'.net.io.map r.node = nn.net.io ∧
+      (∀ j, j < nn.net.nodes.size → isSeqKind (nn.net.node j).kind = true → ∃ j', j' < nn'.net.nodes.size ∧ r.node j' = j) ∧
+      (∀ l', l' < nn'.net.lines.size → r.line l' < nn.net.lines.size ∧
+        (nn.net.line (r.line l')).driver = r.node (nn'.net.line l').driver) ∧
+      (∀ (S : Nat → Prop) (an v : Nat → α), ConsOff nn S z neg prim an v →
+        ConsOff nn' (fun j' => S (r.node j')) z neg prim (fun j => an (r.node j)) (fun l => v (r.line l))) ∧
+      (∀ (S : Nat → Prop) (an v : Nat → α),
+        ConsOff nn' (fun j' => S (r.node j')) z neg prim (fun j => an (r.node j)) (fun l => v (r.line l)) →
+        (∀ l, l < nn.net.lines.size → (¬ ∃ l', l' < nn'.net.lines.size ∧ r.line l' = l) → ¬ S (nn.net.line l).driver →
+          v l = lineEq nn.net (spN nn.net) z neg prim an v l) →
+        ConsOff nn S z neg prim an v) ∧
+      (∀ (S : Nat → Prop) (an' v' : Nat → α), ConsOff nn' (fun j' => S (r.node j')) z neg prim an' v' →
+        ∃ an v, ConsOff nn S z neg prim an v ∧ (∀ l', l' < nn'.net.lines.size → v (r.line l') = v' l') ∧
+          (∀ j', j' < nn'.net.nodes.size → an (r.node j') = an' j')) := by
+  have ho' : ∀ x ∈ own, x < nn.net.nodes.size := fun x hx => by simpa using List.all_eq_true.mp ho x hx
+  obtain ⟨w', r, e, sq, ex⟩ := removeDangling_ext z neg prim fuel nn own stack nn' (WFm.of_wfNoTrail hw) ho' he
+  exact ⟨wfNoTrail_of_WFm w', r, fun j' hj => ⟨e.nodeLt j' hj, e.kind j' hj, e.name j' hj, e.pins j' hj (fun x => x)⟩, e.nodeInj, e.io,
+    sq, fun l' hl => ⟨e.lineLt l' hl, (e.drv l' hl).2.1⟩, fun S an v hc => e.restrict S z neg prim an v hc,
+    fun S an v hc hrem => e.extend S z neg prim an v hc hrem, ex⟩
+
+/-- **`substitute` with removal of dangling logic** (an unconnected output of the instance whose driver dangles): designated
+    cell exists and no connected input pin is ignored (`noIgnoredB`; no condition on the outputs), `implOKB`.  The result
+    `h'` of `substitute` is the circuit `h5` that `substituteCore` builds — for which the full semantic statement
+    `SubstSemStmt` holds — with dangling logic removed: `h'` embeds into `h5` as in `remove_dangling_sem` (well-formed up
+    to trailing `None`s, index maps `r`, same ports, all state elements, every surviving node reads the same lines,
+    restrict / extend / extension exists).  Composition (the last two clauses): (1) every consistent labelling of `h'` is the
+    restriction of a labelling of `h5` under which the host is consistent outside the cell and the cell has the relational
+    meaning of its whole implementation; (2) every labelling of the host that is consistent outside the cell, together with
+    an `ImplMatches` labelling of the implementation, yields a consistent labelling of `h'` (glue, then restrict). -/
+theorem substitute_sem_removing {α : Type _} (h m h' : NNet) (c : Nat) (hw : h.wf = true) (mw : m.wf = true)
+    (hc : c < h.net.nodes.size) (hio : h.net.io.contains c = false) (hcf : (h.net.node c).isFork = false)
+    (hr : noIgnoredB h c m = true) (hok : implOKB m = true) (he : substitute h c m = some h')
+    (z : α) (neg : α → α) (prim : String → α → α → α → α → α) :
+    ∃ (h5 : NNet) (map : Array (Option Nat)) (dang : List (Option Nat)) (r : Ren),
+      substituteCore h c m = some (h5, map, dang) ∧ SubstSemStmt h m h5 c z neg prim ∧ h'.wfNoTrail = true ∧
+      (keepsAllB h c m = true → h' = h5) ∧
+      (∀ j', j' < h'.net.nodes.size → r.node j' < h5.net.nodes.size ∧ (h'.net.node j').kind = (h5.net.node (r.node j')).kind ∧
+        h'.names.getD j' "" = h5.names.getD (r.node j') "" ∧
+        ∀ k, ((h'.net.node j').inPin k).map r.line = (h5.net.node (r.node j')).inPin k) ∧
+      (∀ j1 j2, j1 < h'.net.nodes.size → j2 < h'.net.nodes.size → r.node j1 = r.node j2 → j1 = j2) ∧
+      h'.net.io.map r.node = h5.net.io ∧
+      (∀ j, j < h5.net.nodes.size → isSeqKind (h5.net.node j).kind = true → ∃ j', j' < h'.net.nodes.size ∧ r.node j' = j) ∧
+      (∀ l', l' < h'.net.lines.size → r.line l' < h5.net.lines.size ∧
+        (h5.net.line (r.line l')).driver = r.node (h'.net.line l').driver) ∧
+      (∀ (S : Nat → Prop) (an v : Nat → α), ConsOff h5 S z neg prim an v →
+        ConsOff h' (fun j' => S (r.node j')) z neg prim (fun j => an (r.node j)) (fun l => v (r.line l))) ∧
+      (∀ (S : Nat → Prop) (an v : Nat → α),
+        ConsOff h' (fun j' => S (r.node j')) z neg prim (fun j => an (r.node j)) (fun l => v (r.line l)) →
+        (∀ l, l < h5.net.lines.size → (¬ ∃ l', l' < h'.net.lines.size ∧ r.line l' = l) → ¬ S (h5.net.line l).driver →
+          v l = lineEq h5.net (spN h5.net) z neg prim an v l) →
+        ConsOff h5 S z neg prim an v) ∧
+      -- composed with `SubstSemStmt`, for every set `S` of host nodes other than the cell as holes: (1) a labelling of `h'` that is
+      -- consistent outside (the nodes that were) `S` extends to the circuit before the removal, where the host is consistent
+      -- outside `S ∪ {c}` and the cell has the relational meaning of its (whole) implementation
+      (∀ (S : Nat → Prop), (∀ s, S s → s < h.net.nodes.size ∧ s ≠ c) → ∀ an' v' : Nat → α,
+        ConsOff h' (fun j' => S (r.node j')) z neg prim an' v' →
+        ∃ an5 v5 : Nat → α, (∀ l', l' < h'.net.lines.size → v5 (r.line l') = v' l') ∧ (∀ j', j' < h'.net.nodes.size → an5 (r.node j') = an' j') ∧
+          ConsOff h (fun d => S d ∨ d = c) z neg prim an5 v5 ∧
+          ∃ sh anm vm, implShape m = some sh ∧ ImplMatches h c m sh z neg prim anm vm v5) ∧
+      -- (2) a labelling of the host consistent outside `S ∪ {c}` + a matching labelling of the implementation give a labelling
+      -- of `h'` consistent outside `S`
+      (∀ (S : Nat → Prop) (sh : Shape) (an v anm vm : Nat → α), implShape m = some sh →
+        ConsOff h (fun d => S d ∨ d = c) z neg prim an v → ImplMatches h c m sh z neg prim anm vm v →
+        ∃ an5 v5 : Nat → α, ConsOff h' (fun j' => S (r.node j')) z neg prim (fun j => an5 (r.node j)) (fun l => v5 (r.line l)) ∧
+          (∀ l, l < h.net.lines.size → v5 l = v l) ∧ (∀ d, d < h.net.nodes.size → d ≠ c → an5 d = an d)) := by
+  obtain ⟨h5, map, dang, sh, dn, r, hcore, ct, w', e, sq, ex⟩ :=
+    substitute_removing z neg prim h m h' c (WF.of_wf hw) (WF.of_wf mw) hc hio hcf hr hok he
+  refine ⟨h5, map, dang, r, hcore, ?_, wfNoTrail_of_WFm w', ?_,
+    fun j' hj => ⟨e.nodeLt j' hj, e.kind j' hj, e.name j' hj, e.pins j' hj (fun x => x)⟩, e.nodeInj, e.io,
+    sq, fun l' hl => ⟨e.lineLt l' hl, (e.drv l' hl).2.1⟩, fun S an v hc => e.restrict S z neg prim an v hc,
+    fun S an v hc hrem => e.extend S z neg prim an v hc hrem, ?_, ?_⟩
+  rotate_left 2
+  · intro S hS an' v' hc'
+    obtain ⟨an5, v5, c5, e1, e2⟩ := ex S an' v' hc'
+    obtain ⟨f1, anm, vm, hM, _⟩ := ct.forward z neg prim S hS an5 v5 c5
+    exact ⟨an5, v5, e1, e2, f1, sh, anm, vm, ct.shape, hM⟩
+  · intro S sh' an v anm vm hs' hH hM
+    have : sh' = sh := Option.some.inj (hs'.symm.trans ct.shape)
+    subst this
+    obtain ⟨an5, v5, c5, b1, b2, _⟩ := ct.backward z neg prim S an v anm vm hH hM
+    exact ⟨an5, v5, e.restrict S z neg prim an5 v5 c5, b1, b2⟩
+  · exact ⟨sh, dn, map, ct.shape, ct.des, wf_of_WF ct.wf', ct.mapDn,
+      fun j x hm => ⟨ct.mapM j x hm, ct.mapGe j x hm, ct.mapLt j x hm, ct.kind' j x hm⟩, ct.mapInj, ct.io', ct.frameNode, ct.lsize,
+      fun S hS an' v' hc' => ct.forward z neg prim S hS an' v' hc',
+      fun S an v anm vm hH hM => ct.backward z neg prim S an v anm vm hH hM⟩
+  · intro hk
+    obtain ⟨_, _, map', dang', _, _, hcore', _⟩ := substitute_keepsAll_eq h c m h' hk he
+    rw [hcore] at hcore'
+    exact (Prod.mk.inj (Option.some.inj hcore')).1.symm
+
+/-- `ConsOff` without holes is consistency, and consistency in the node-indexed form is `consistentB` (Model/Net.lean,
+    the gate-by-gate meaning used by C01): the labelling as an array, the assignment by `s_nodes` position -/
+theorem consOff_consistent {α : Type _} [BEq α] [LawfulBEq α] (nn : NNet) (hw : nn.wf = true) (z : α) (neg : α → α)
+    (prim : String → α → α → α → α → α) (asg : Nat → α) (v : Array α) :
+    consistentB nn.net z neg prim asg v = true ↔
+      ConsOff nn (fun _ => False) z neg prim (fun n => asg (nn.net.sNodes.idxOf n)) (fun l => v.getD l z) := by
+  rw [consOff_false]; exact consistentB_iff_wf (WF.of_wf hw) z neg prim asg v
+
 /-- every line of the host that is not driven by the substituted cell keeps its equation literally: for every labelling
     and every assignment, `lineEq` of the result at that line equals `lineEq` of the host (same driver, same pin, same
     driver record, hence same gate function of the same in-lines) -/
@@ -373,6 +601,42 @@ theorem resolve_ports (lib : Lib) (h h' : NNet) (hw : h.wf = true)
     simpa [kindAt, Net.node] using this
   have r := (resolve_fold lib h.keys h h' he ⟨w.names, w.io⟩ hk).1
   exact ⟨r, by simpa [NNet.ioNames] using congrArg List.length r⟩
+
+/-- **`resolve_tlib_cells` preserves the function** (model `resolveCells`; every substitution along the loop removes nothing:
+    `resolveOKB`, decidable, evaluated by running the model).  With `cell x` = "`x` is a node of the original circuit whose
+    kind is in the library": the result is well-formed, keeps ports, all other nodes and all node keys of the original;
+    **(1)** every consistent labelling `v'` of the result is, on the original lines, consistent for the original circuit
+    outside the library cells, and every library cell `c` has the relational meaning of its implementation under `v'`
+    (`ImplMatches`, see `substitute_sem`); **(2)** conversely every labelling of the original circuit that is consistent
+    outside the library cells and gives every library cell the relational meaning of its implementation extends to a
+    consistent labelling of the result (same values on the original lines, same assignment on the other nodes). -/
+theorem resolve_sem {α : Type _} (lib : Lib) (h h' : NNet) (hw : h.wf = true) (hok : resolveOKB lib h.keys h = true)
+    (he : resolveCells lib h = some h') (z : α) (neg : α → α) (prim : String → α → α → α → α → α) :
+    h'.wf = true ∧ h'.net.io = h.net.io ∧ h.net.nodes.size ≤ h'.net.nodes.size ∧ h.net.lines.size ≤ h'.net.lines.size ∧
+    (∀ d, d < h.net.nodes.size → (lib.find (h.net.node d).kind).isSome = false → h'.net.node d = h.net.node d) ∧
+    (∀ d, d < h.net.nodes.size → h'.key d = h.key d) ∧
+    (∀ an' v' : Nat → α, ConsOff h' (fun _ => False) z neg prim an' v' →
+      ConsOff h (fun x => x < h.net.nodes.size ∧ (lib.find (h.net.node x).kind).isSome = true) z neg prim an' v' ∧
+      ∀ c, c < h.net.nodes.size → (lib.find (h.net.node c).kind).isSome = true →
+        ∃ impl sh anm vm, lib.find (h.net.node c).kind = some impl ∧ implShape impl = some sh ∧
+          ImplMatches h c impl sh z neg prim anm vm v') ∧
+    (∀ an v : Nat → α,
+      ConsOff h (fun x => x < h.net.nodes.size ∧ (lib.find (h.net.node x).kind).isSome = true) z neg prim an v →
+      (∀ c, c < h.net.nodes.size → (lib.find (h.net.node c).kind).isSome = true →
+        ∃ impl sh anm vm, lib.find (h.net.node c).kind = some impl ∧ implShape impl = some sh ∧
+          ImplMatches h c impl sh z neg prim anm vm v) →
+      ∃ an' v', ConsOff h' (fun _ => False) z neg prim an' v' ∧ (∀ l, l < h.net.lines.size → v' l = v l) ∧
+        (∀ d, d < h.net.nodes.size → (lib.find (h.net.node d).kind).isSome = false → an' d = an d)) := by
+  have r := resolve_sem_main lib h h' (WF.of_wf hw) z neg prim hok he
+  refine ⟨wf_of_WF r.wf, r.io, r.nsize, r.lsize, fun d hd hn => r.node d hd (fun hc => by rw [hn] at hc; exact absurd hc.2 (by simp)),
+    r.key, ?_, ?_⟩
+  · intro an' v' hc
+    obtain ⟨g1, g2⟩ := r.fw (fun _ => False) (fun _ hs => absurd hs id) an' v' hc
+    exact ⟨consOff_congr (fun x => by simp) g1, fun c hc1 hc2 => g2 c ⟨hc1, hc2⟩⟩
+  · intro an v hc hcells
+    obtain ⟨an', v', c1, e1, e2⟩ := r.bw (fun _ => False) (fun _ hs => absurd hs id) an v
+      (consOff_congr (fun x => by simp) hc) (fun c hc' => hcells c hc'.1 hc'.2)
+    exact ⟨an', v', c1, e1, fun d hd hn => e2 d hd (fun hc' => by rw [hn] at hc'; exact absurd hc'.2 (by simp))⟩
 
 /-! ## non-vacuity -/
 /-- a well-formed dump with an unconnected pin, a two-output flip-flop, fan-out and both node classes sharing a name -/
@@ -460,6 +724,48 @@ example : (substitute exHost 2 exImpl).map (fun r => (r.net.lines.toList.drop 7,
 example : (substitute exHost 2 exImpl).map (fun r => (r.net.line 1, r.net.line 2, r.net.line 3, r.net.line 4)) =
     some (⟨6, 0, 7, 0⟩, ⟨1, 0, 9, 1⟩, ⟨8, 1, 3, 0⟩, ⟨10, 0, 4, 0⟩) := by decide +kernel
 
+/-- hypotheses of `substitute_wf` / `substitute_sem` are satisfiable (`exHost`, cell 2, `exImpl`: two outputs, an output read
+    inside, inputs with one and with two readers); the result is well-formed, has 5 copied lines, and a consistent
+    labelling of it exists (the evaluator's), so direction (1) of `substitute_sem` is not vacuous -/
+example : exHost.wf = true ∧ exImpl.wf = true ∧ exHost.net.io.contains 2 = false ∧ (exHost.net.node 2).isFork = false ∧
+    regularB exHost 2 exImpl = true ∧ keepsAllB exHost 2 exImpl = true ∧ implOKB exImpl = true ∧
+    (substitute exHost 2 exImpl).map (fun r => (r.wf, r.net.lines.size,
+      consistentB r.net false (!·) prim2 (fun j => j == 0 || j == 4) (evalAll r.net false (!·) prim2 (fun j => j == 0 || j == 4)))) =
+      some (true, 12, true) := by decide +kernel
+
+/-- regular use with an unconnected input pin: the instance `u` has pin `A` only; line 2 of `exImpl` (from port `B` to the
+    `NAND2`) is absent (`deadLine`), the copied `NAND2` has one pin — `substitute_sem` relates the result to
+    `cutIns exImpl …`, the implementation without that line ("kyupy's own reading of a missing pin") -/
+def exHostI : NNet :=
+  { net := { nodes := #[⟨"input", [], [some 0]⟩, ⟨"AOCELL", [some 0], [some 1, some 2]⟩, ⟨"output", [some 1], []⟩,
+                        ⟨"output", [some 2], []⟩],
+             lines := #[⟨0, 0, 1, 0⟩, ⟨1, 0, 2, 0⟩, ⟨1, 1, 3, 0⟩], io := [0, 2, 3] },
+    names := #["a", "u", "z", "y"] }
+example : exHostI.wf = true ∧ regularB exHostI 1 exImpl = true ∧ keepsAllB exHostI 1 exImpl = true ∧
+    (exHostI.net.node 1).isFork = false ∧
+    (implShape exImpl).map (fun sh => (List.range exImpl.net.lines.size).filter (deadLine exHostI 1 exImpl sh)) = some [2] ∧
+    (substitute exHostI 1 exImpl).map (fun r => (r.wf, (r.net.node 6).kind, (r.net.node 6).ins)) =
+      some (true, "NAND2", [some 4]) := by decide +kernel
+
+/-- the side condition "the designated cell is not a port" (`implOKB`) cannot be dropped from `substitute_wf`: a
+    Verilog-style feed-through `input A -> fork a -> output X` as implementation makes the port cell `A` the designated
+    cell; the host cell takes kind `input`, its copied line to the fork `u~a` (line 2) loses the fork's pin 0 to the
+    instance's input line (line 0) — regular use, but the result is not a well-formed circuit.  The real `substitute`
+    returns the same dump; `copy()` / a pickle round trip of it then connect the fork to the stale line and the output reads 0
+    instead of the input: finding D32 (corpus/C10-designated-port.json, harness class `substitute-designated-port`) -/
+def exFeed : NNet :=
+  { net := { nodes := #[⟨"input", [], [some 0]⟩, ⟨"__fork__", [some 0], [some 1]⟩, ⟨"output", [some 1], []⟩],
+             lines := #[⟨0, 0, 1, 0⟩, ⟨1, 0, 2, 0⟩], io := [0, 2] },
+    names := #["A", "a", "X"] }
+def exFeedHost : NNet :=
+  { net := { nodes := #[⟨"input", [], [some 0]⟩, ⟨"CELL", [some 0], [some 1]⟩, ⟨"output", [some 1], []⟩],
+             lines := #[⟨0, 0, 1, 0⟩, ⟨1, 0, 2, 0⟩], io := [0, 2] },
+    names := #["i", "u", "o"] }
+theorem substitute_designated_port_not_wf :
+    exFeed.wf = true ∧ exFeedHost.wf = true ∧ regularB exFeedHost 1 exFeed = true ∧ implOKB exFeed = false ∧
+    (substitute exFeedHost 1 exFeed).map (fun r => (r.wf, (r.net.node 1).kind, r.net.line 2, (r.net.node 3).ins)) =
+      some (false, "input", ⟨1, 0, 3, 0⟩, [some 0]) := by decide +kernel
+
 /-- the removing cases are modelled too (they are covered by `substitute_ports` and `substitute_state_perm`): with output
     pin 1 of the instance unconnected the `OR2` of `exImpl` dangles and is removed; with an implementation that ignores
     its input and has no node of its own the cell and its in-line are removed, and the last node takes the cell's index -/
@@ -479,6 +785,50 @@ example : exHostU.wf = true ∧ exHostU.net.io.contains 2 = false ∧ regularB e
 example : exFill.wf = true ∧
     (substitute exFill 1 { net := { nodes := #[⟨"__fork__", [], []⟩], lines := #[], io := [0] }, names := #["A"] }).map
       (fun r => (r.kindNames, r.net.lines.size)) = some ([("input", "a"), ("DFF", "ff")], 0) := by decide +kernel
+
+/-- an unconnected output whose driver stays (`keepsAllB` but not `regularB`): a flip-flop cell `input(D,C) output(Q,QN)` whose
+    outputs are the two pins of one `DFF` primitive, instantiated with `QN` open — nothing is removed, the host cell becomes
+    the `DFF`, `substitute_wf` / `substitute_sem` apply.  (With `exHostU`, where the `OR2` of `exImpl` dangles and is
+    removed, `keepsAllB` is false: not covered.) -/
+def exImplFF : NNet :=
+  { net := { nodes := #[⟨"__fork__", [], [some 0]⟩, ⟨"__fork__", [], [some 1]⟩, ⟨"__fork__", [some 2], []⟩,
+                        ⟨"__fork__", [some 3], []⟩, ⟨"DFF", [some 0, some 1], [some 2, some 3]⟩],
+             lines := #[⟨0, 0, 4, 0⟩, ⟨1, 0, 4, 1⟩, ⟨4, 0, 2, 0⟩, ⟨4, 1, 3, 0⟩], io := [0, 1, 2, 3] },
+    names := #["D", "C", "Q", "QN", "Q"] }
+def exHostFF : NNet :=
+  { net := { nodes := #[⟨"input", [], [some 0]⟩, ⟨"input", [], [some 1]⟩, ⟨"DFFX1", [some 0, some 1], [some 2]⟩,
+                        ⟨"output", [some 2], []⟩],
+             lines := #[⟨0, 0, 2, 0⟩, ⟨1, 0, 2, 1⟩, ⟨2, 0, 3, 0⟩], io := [0, 1, 3] },
+    names := #["d", "clk", "u", "q"] }
+example : exImplFF.wf = true ∧ exHostFF.wf = true ∧ regularB exHostFF 2 exImplFF = false ∧ keepsAllB exHostFF 2 exImplFF = true ∧
+    implOKB exImplFF = true ∧ exHostFF.net.io.contains 2 = false ∧ (exHostFF.net.node 2).isFork = false ∧
+    keepsAllB exHostU 2 exImpl = false ∧
+    (substitute exHostFF 2 exImplFF).map (fun r => (r.wf, (r.net.node 2).kind, (r.net.node 2).outs, r.sNames)) =
+      some (true, "DFF", [some 2], ["d", "clk", "q", "u"]) := by decide +kernel
+
+/-- hypotheses of `substitute_sem_removing` / `remove_dangling_sem` are satisfiable and something is removed: with `exHostU` the
+    `OR2` of `exImpl` dangles (11 nodes before, 10 after the removal); with the cell `input(D,C) output(Q,Z)`, `Q` = pin 0 of a
+    `DFF`, `Z = INV1(pin 1 of the DFF)`, instantiated with `Z` open, the `INV1` is removed and leaves a trailing `None` in the
+    `outs` of the `DFF` (`[some 2, none]`): the result is well-formed only up to trailing `None`s (`wfNoTrail`), as the
+    theorems state -/
+def exImplFZ : NNet :=
+  { net := { nodes := #[⟨"__fork__", [], [some 0]⟩, ⟨"__fork__", [], [some 1]⟩, ⟨"__fork__", [some 2], []⟩,
+                        ⟨"__fork__", [some 4], []⟩, ⟨"DFF", [some 0, some 1], [some 2, some 3]⟩, ⟨"INV1", [some 3], [some 4]⟩],
+             lines := #[⟨0, 0, 4, 0⟩, ⟨1, 0, 4, 1⟩, ⟨4, 0, 2, 0⟩, ⟨4, 1, 5, 0⟩, ⟨5, 0, 3, 0⟩], io := [0, 1, 2, 3] },
+    names := #["D", "C", "Q", "Z", "Q", "Z"] }
+example : noIgnoredB exHostU 2 exImpl = true ∧ keepsAllB exHostU 2 exImpl = false ∧
+    (substituteCore exHostU 2 exImpl).map (fun r => (r.1.wf, r.1.net.nodes.size, r.2.2)) = some (true, 11, [some 10]) ∧
+    (substitute exHostU 2 exImpl).map (fun r => (r.wf, r.wfNoTrail, r.net.nodes.size)) = some (true, true, 10) ∧
+    exImplFZ.wf = true ∧ implOKB exImplFZ = true ∧ noIgnoredB exHostFF 2 exImplFZ = true ∧
+    (substitute exHostFF 2 exImplFZ).map (fun r => (r.wf, r.wfNoTrail, (r.net.node 2).kind, (r.net.node 2).outs, r.net.nodes.size)) =
+      some (false, true, "DFF", [some 2, none], 4) := by decide +kernel
+
+/-- hypotheses of `resolve_sem`: every substitution of the example removes nothing (`resolveOKB`); the result is consistent under the
+    evaluator's labelling (direction (1) is not vacuous) -/
+example : exHost.wf = true ∧ resolveOKB [("AOCELL", exImpl)] exHost.keys exHost = true ∧
+    (resolveCells [("AOCELL", exImpl)] exHost).map (fun r => (r.wf,
+      consistentB r.net false (!·) prim2 (fun j => j == 1 || j == 4) (evalAll r.net false (!·) prim2 (fun j => j == 1 || j == 4)))) =
+      some (true, true) := by decide +kernel
 
 /-- hypotheses of `resolve_ports`: the host of the example with the library `AOCELL ↦ exImpl` -/
 example : exHost.wf = true ∧ (exHost.net.io.all fun i => (Lib.find [("AOCELL", exImpl)] (exHost.net.node i).kind).isNone) = true ∧
